@@ -40,3 +40,13 @@ impl Access {
         self.dpor_vv <= *version
     }
 }
+
+#[cfg(feature = "verif-hooks")]
+impl Access {
+    pub(crate) fn verif_dump(access: &Option<Access>) -> String {
+        match access {
+            Some(a) => format!("{}:{}", a.path_id, a.dpor_vv.verif_dump()),
+            None => "-".to_string(),
+        }
+    }
+}
